@@ -130,6 +130,26 @@ def work(job):
                 if msg:
                     acc.violation(dict(kind='pair', op=op, a=x, b=y, form=mode, a_t=W.kind(x), b_t=W.kind(y),
                                        observed=obs), f'{f} with {env} {msg}')
+    elif mode == 'numpy':
+        # numbers arriving as numpy scalars (what SLOPE / FORECAST / INTERCEPT return): plain numbers to every operator,
+        # and the result is a python number / text / logical, not a numpy type
+        import numpy as np
+        nps = [np.float64(2.5), np.float64(-1.0), np.float64(3.0), np.int64(3), np.float64(0.0)]
+        f = formula_for(op)
+        for x in nps:
+            for y in list(values) + nps:
+                for a, b in ((x, y), (y, x)):
+                    obs = ev.run(f, {'A1': a, 'B1': b})
+                    acc.add('evaluations')
+                    acc.add('numpy_operands')
+                    pa = a.item() if isinstance(a, np.generic) else a
+                    pb = b.item() if isinstance(b, np.generic) else b
+                    msg = judge(op, pa, pb, obs)
+                    if not msg and obs[0] == 'ok' and not isinstance(obs[1], (int, float, str, bool, np.integer, np.floating)):
+                        msg = f'yielded {type(obs[1]).__name__} {obs[1]!r}, not a number/text/logical/error'
+                    if msg:
+                        acc.violation(dict(kind='pair', op=op, a=repr(a), b=repr(b), form='numpy', a_t=W.kind(pa), b_t=W.kind(pb),
+                                           observed=obs), f'{formula_for(op, repr(a), repr(b))} (numpy scalar operands) {msg}')
     elif mode == 'workbook':
         n = len(values)
         cells = {f'A{i + 1}': v for i, v in enumerate(values) if v is not None}
@@ -169,6 +189,7 @@ def run(ctx):
     jobs = [(op, 'cells', values) for op in ALL_OPS]
     jobs += [(op, 'literals', values) for op in ALL_OPS]
     jobs += [(op, mode, values if ctx.thorough else POOL) for op in BIN_OPS for mode in ('cell-literal', 'literal-cell')]
+    jobs += [(op, 'numpy', POOL) for op in ALL_OPS]
     wb_ops = ALL_OPS if ctx.thorough else ['+', '&', '<', '^']
     wb_vals = values if ctx.thorough else POOL
     jobs += [(op, 'workbook', wb_vals) for op in wb_ops]
@@ -235,6 +256,16 @@ def replay(case):
         if case['form'] == 'literals':
             f = formula_for(op, literal(a), literal(b))
             obs = ev.run(f, {})
+        elif case['form'] == 'numpy':
+            import numpy as np
+            a, b = eval(a, {'np': np}) if isinstance(a, str) and a.startswith('np.') else a, eval(b, {'np': np}) if isinstance(b, str) and b.startswith('np.') else b
+            f = formula_for(op)
+            obs = ev.run(f, {'A1': a, 'B1': b})
+            ok_type = obs[0] != 'ok' or isinstance(obs[1], (int, float, str, bool, np.integer, np.floating))
+            pa = a.item() if isinstance(a, np.generic) else a
+            pb = b.item() if isinstance(b, np.generic) else b
+            msg = judge(op, pa, pb, obs) or (None if ok_type else f'yielded {type(obs[1]).__name__}')
+            return bool(msg), f'{f} with A1={a!r} B1={b!r}: observed {obs!r}; {msg or "agrees with reference"}'
         elif case['form'] == 'cell-literal':
             f = formula_for(op, 'A1', literal(b))
             obs = ev.run(f, {'A1': a})
